@@ -1,8 +1,88 @@
-(* C09 — property theorems. Statements only; proofs are in Proofs*.v. *)
+(* C09 — property theorems. Statements only; proofs are in Proofs*.v. Each theorem is followed by
+   Print Assumptions. Model: coq/C09/Model.v (tied to /repo by the correspondence check).
+   H (SHA-1), pl (piece length) and expected (the torrent's piece hashes) are universally
+   quantified; fs0 is ANY layout with ANY on-disk state; ops is ANY sequence of client calls
+   (open / hash_check(quick or full) / hash_stop / close), scheduler ticks and hash-result
+   deliveries in any order. *)
 From Coq Require Import List NArith Bool Arith.
-From LTV.C09 Require Import Model Proofs.
+From LTV.C09 Require Import Model Proofs ProofsA ProofsB ProofsC.
 Import ListNotations.
 
+(* constants re-extracted from the source satisfy the side conditions *)
 Theorem params_ok_now : Proofs.params_ok = true.
 Proof. exact Proofs.params_ok_now. Qed.
 Print Assumptions params_ok_now.
+
+(* check_exact, direction "reported present => valid", at EVERY moment of EVERY history (not only
+   after a completed check): a set bit is a piece whose every file window exists on the original
+   disk and whose bytes hash to the torrent's value.
+   The converse direction (valid => reported present once a check has completed) is NOT proved in
+   Coq: it is compared against the implementation and against OpenSSL on every generated case by
+   the correspondence run (oracle class "not-exact"). *)
+Theorem check_exact_sound : forall H pl expected fs0 ops bl i,
+  s_bits (run H pl expected ops (init fs0)) = Some bl ->
+  nth i bl false = true ->
+  valid H pl expected fs0 i = true.
+Proof. exact ProofsC.check_sound. Qed.
+Print Assumptions check_exact_sound.
+
+Example check_exact_sound_nonvacuous :
+  let fs0 := [fresh_file 3 false (Bytes [1;2;3]%N); fresh_file 2 false (Bytes [4;9]%N)] in
+  let expected := fun i : nat => match i with O => [1;2]%N | 1 => [3;4]%N | _ => [5]%N end in
+  s_bits (run (fun b => b) 2%N expected [OOpen; OCheck false; ORunAll] (init fs0)) = Some [true; true; false].
+Proof. vm_compute. reflexivity. Qed.
+
+(* what "valid" means, spelled out: valid fs i = true iff reading piece i's windows off the disk
+   succeeds (each window's file is a regular file long enough, or padding) and H of those bytes
+   equals the expected digest *)
+Theorem valid_spec : forall H pl expected fs i,
+  valid H pl expected fs i = true <->
+  exists b, read_windows (piece_windows pl fs i) fs [] = Some b /\ bytes_eqb (H b) (expected i) = true.
+Proof. exact ProofsC.valid_spec. Qed.
+Print Assumptions valid_spec.
+
+(* the digest the main thread compares is H of exactly the piece's on-disk bytes *)
+Theorem queued_bytes_faithful : forall H pl expected fs0 ops i b,
+  In (i, b) (s_hq (run H pl expected ops (init fs0))) -> piece_bytes pl fs0 i = Some b.
+Proof. exact ProofsC.queued_bytes_faithful. Qed.
+Print Assumptions queued_bytes_faithful.
+
+(* check_readonly: after any history every file has its original size description and its original
+   disk state, or it was absent (directory present) and has been created empty *)
+Theorem check_readonly : forall H pl expected fs0 ops,
+  Forall2 (fun f g => f_size f = f_size g /\ f_pad f = f_pad g /\
+                      (f_disk f = f_disk g \/ (f_disk f = Absent /\ f_disk g = Bytes [])))
+          fs0 (s_files (run H pl expected ops (init fs0))).
+Proof. exact ProofsC.check_readonly. Qed.
+Print Assumptions check_readonly.
+
+Example check_readonly_nonvacuous :
+  let fs0 := [fresh_file 3 false Absent; fresh_file 2 false (Bytes [4;9]%N)] in
+  map f_disk (s_files (run (fun b => b) 2%N (fun _ => []) [OOpen; OCheck false; ORunAll] (init fs0)))
+  = [Bytes []; Bytes [4;9]%N].
+Proof. vm_compute. reflexivity. Qed.
+
+(* stop_releases (partial, see ProofsC): after hash_stop during a check, and after close in any
+   state, nothing is queued, the checker is idle and no notification is pending; after close the
+   chunk list is gone *)
+Theorem stop_releases_partial : forall s,
+  (is_checking s = true ->
+     s_hq (do_stop s) = [] /\ is_checking (do_stop s) = false /\ s_delay (do_stop s) = false) /\
+  (s_hq (do_close s) = [] /\ is_checking (do_close s) = false /\ s_delay (do_close s) = false /\
+   (s_open s = true -> s_nodes (do_close s) = [] /\ s_open (do_close s) = false /\ s_bits (do_close s) = None)).
+Proof. exact ProofsC.stop_releases_partial. Qed.
+Print Assumptions stop_releases_partial.
+
+Example stop_releases_nonvacuous :
+  let fs0 := [fresh_file 4 false (Bytes [1;2;3;4]%N)] in
+  let s := run (fun b => b) 2%N (fun _ => []) [OOpen; OCheck false] (init fs0) in
+  is_checking s = true /\ length (s_hq s) = 2 /\
+  map n_refs (s_nodes (do_stop s)) = [0; 0] /\ s_ranges (do_stop s) = [true; true].
+Proof. vm_compute. repeat split; reflexivity. Qed.
+
+(* a legal call sequence answered with internal_error (confirmed on the implementation) *)
+Theorem recheck_before_notification_refuted :
+  exists (fs : list fnode) (ops : list op),
+    s_ierr (run (fun b => b) 1100%N (fun _ => []) ops (init fs)) = true.
+Proof. exact ProofsC.recheck_before_notification_refuted. Qed.
+Print Assumptions recheck_before_notification_refuted.
